@@ -576,8 +576,9 @@ void SimulateF100L::alu(uint16_t opcode)
     case DEST_EA: memory->write16(ea * 2, data); break;
     case DEST_CALL:
       lsp = memory->read16(0) * 2;
-      memory->write16(lsp + 2, pc / 2);
-      memory->write16(lsp + 4, cr.value);
+      // The link stack wraps inside the 64 Ki word address space.
+      memory->write16((lsp + 2) & 0x1ffff, pc / 2);
+      memory->write16((lsp + 4) & 0x1ffff, cr.value);
       lsp += 4;
       memory->write16(0, lsp / 2);
       pc = ea;
